@@ -10,6 +10,8 @@ def run(c):
     ct = A.conv_table_for([p for w in A.WRAPPERS_QUICK for p in w])
     A.obl_emoji(c, ct, thorough=(c.tier == "thorough"), budget_s=1500)
     A.obl_fixed_assembly(c, thorough=(c.tier == "thorough"), budget_s=1200)
+    # the method object and its memo survive an option change (update_engine, same layout): the switches are read when a word is shown
+    A.obl_reconfig(c, ct, thorough=(c.tier == "thorough"), budget_s=900)
     # the fixed assembly takes the raw keys as given: that they are the keys of the word in progress (empty when nothing is composed) is the
     # session invariant, preserved by every event
     if c.tier == "quick":
